@@ -1,3 +1,5 @@
+#[cfg(adlt_verif)]
+use adlt_verif_seam::std;
 use chrono::{Local, TimeZone};
 use clap::{Arg, Command};
 use glob::{glob_with, MatchOptions};
